@@ -47,7 +47,7 @@ def oracle(c):
 
 
 def run(ctx):
-    n = 245 if ctx.thorough() else 21
+    n = 248 if ctx.thorough() else 24
     proof_ok, detail = True, {}
     if ctx.replay:
         # a replay file names the seed and the scenario; all scenarios are deterministic functions of the seed
